@@ -289,13 +289,13 @@ def containment_paths(maxdepth=8):
 
 
 # ------------------------------------------------------------------ representatives
-STR_REPS = ["abc", "two words", "", "ünï", "7", "a#b", "it's", "x.y/z", "1e3x", "odd\x0c\x1c\x85\u2028chars\tin it", "END", "layer"]
+STR_REPS = ["abc", "two words", "", "ünï", "7", "a#b", "it's", "x.y/z", "1e3x", "odd\x0c\x1c\x85\u2028chars\tin it", "END", "layer", "multi \nline\t\n\nvalue "]
 EXPR_REPS = [
     ("([a] = 1)", "( [a] = 1 )"),
     ('("[a]" = "x" AND [b] > 2)', '( ( "[a]" = "x" ) AND ( [b] > 2 ) )'),
 ]
 REGEX_REPS = ["/ab+c/", "/^x$/i"]
-ATTR_REPS = ["[attr]", "[ATTR_2]"]
+ATTR_REPS = ["[attr]", "[ATTR_2]", "[size-px]", "[ows:colour]", "[7up]"]
 HEX_REPS = ["#ff00aa", "#F0A", "#ff00aa80", "#AABBCC"]
 
 
